@@ -27,7 +27,7 @@ class Prop(common.PropertyCheck):
                    'big_endian': rng.random() < 0.5, 'pad_after': rng.choice([0, 1, 64]), 'end_conv': rng.choice(['last', 'past']), 'seed': rng.randrange(1 << 30)}
         # histories: load, edit the loaded sample in place, load the same path again
         for i in range(self.budget(60, 600)):
-            yield {'k': 'reload', 'spec': fcsgen.gen_spec(rng, datatype=rng.choice(['I', 'F'])), 'edit': rng.choice(['col0', 'add1', 'zero'])}
+            yield {'k': 'reload', 'spec': fcsgen.gen_spec(rng, datatype=rng.choice(['I', 'F'])), 'edit': rng.choice(['col0', 'add1', 'zero', 'rewrite', 'rewrite'])}
         for i in range(self.budget(80, 800)):
             yield {'k': 'file', 'spec': fcsgen.gen_spec(rng, allow_malformed=True)}
         if self.tier == 'thorough':
@@ -96,7 +96,21 @@ class Prop(common.PropertyCheck):
             try:
                 try:
                     a = FlowCal.io.FCSData(path)
-                    if a.shape[0]:
+                    if case['edit'] == 'rewrite':
+                        # the file is overwritten in place after the load: the loaded sample is a snapshot, not a window onto the file
+                        before = fcsgen.canon_array(a.view(np.ndarray))
+                        b0, e0 = layout['segs']['D']
+                        with open(path, 'r+b') as fh:
+                            fh.seek(b0)
+                            fh.write(bytes((x ^ 0x5a) for x in data[b0:e0 + 1]))
+                        after = fcsgen.canon_array(a.view(np.ndarray))
+                        with open(path, 'wb') as fh:
+                            fh.write(data)
+                        if before != after:
+                            res = {'err': 'Snapshot', 'msg': 'the loaded events changed when the file was overwritten after loading'}
+                            res['file'] = list(data)
+                            return res
+                    elif a.shape[0]:
                         if case['edit'] == 'col0':
                             a[:, 0] = 0
                         elif case['edit'] == 'add1':
